@@ -14,7 +14,23 @@ var Rigs = map[string]sim.Rig{
 	"C16": {Name: "lifecycle", Run: runLifecycle},
 	"C14": {Name: "pool", Run: runPool("C14")},
 	"C05": {Name: "pool", Run: runPool("C05")},
+	"C19": {Name: "peerbytes", Run: runC19},
+	"C19t": {Name: "tlshello", Run: runTLSHello},
+	"C13": {Name: "fcgi", Run: runFcgi("C13")},
+	"C19f": {Name: "fcgi", Run: runFcgi("C19")},
 	"C08": {Name: "loadfail", Run: runLoadfail, NoBubble: true},
+}
+
+// runC19 spreads the property over its peer-facing surfaces: each run picks
+// one sub-rig from the tape.
+func runC19(c *sim.Ctl) {
+	subs := []struct {
+		name string
+		f    sim.RigFunc
+	}{{"tls-clienthello+user-agent", runTLSHello}, {"fastcgi-responder-output", runFcgi("C19")}}
+	i := c.T.Stream("sub").Draw(len(subs))
+	c.Params["surface"] = subs[i].name
+	subs[i].f(c)
 }
 
 func TestWorker(t *testing.T) { sim.WorkerMain(t, Rigs) }
